@@ -681,6 +681,21 @@ pub fn oracle_c06(scn: &E1Scn, d: &Digest, stats: &mut Stats) -> Vec<Violation> 
                 ));
             }
         }
+        // (2b) nor is the process dropped alive inside the grace period - kill-on-drop is a force-kill too, and one whose
+        // result nobody collects. Only a job told to go at once (delete_now), a job task that panicked, or the tear-down
+        // of the scenario may do that; a job whose handles have all been dropped still sees its grace period out.
+        if let Some((dt, dseq, false, false)) = c.dropped {
+            let panicked = d.task_end.map(|t| t.2).unwrap_or(false);
+            let alive_then = c.exit.map(|e| e.0 >= dt).unwrap_or(true);
+            if dt >= s && dt < deadline && dseq > sseq && alive_then && c.faults == 0 && !panicked && !delete_now_before(scn, d, dseq) {
+                stats.hit("probe:dropped-alive-inside-grace");
+                vs.push(Violation::new(
+                    "dropped-alive-before-grace-elapsed",
+                    st.op.name(),
+                    format!("op {id} ({}) signalled child {ci} at t={s} with grace {grace} ms but the job let go of it, alive and un-reaped, at t={dt} (job task ended: {:?})", st.op.name(), d.task_end.map(|t| t.0)),
+                ));
+            }
+        }
         // (3) still alive at expiry => killed and reaped exactly then
         // (a failed kill or signal ends the graceful control; a failed wait() does not: the timer stays armed)
         let faulty = c.faults > c.wait_faults;
@@ -847,7 +862,7 @@ impl Check for C06 {
             0 => gen_settled(rng, true),
             1 => gen_graceful_burst(rng, false, false),
             2 => gen_graceful_burst(rng, true, true),
-            _ => e1::gen_random(rng, &GenCfg { stalls: false, faults: idx % 8 == 7, max_ops: 12, max_senders: 3, allow_drop: false, kill_lag: idx % 8 == 3 }),
+            _ => e1::gen_random(rng, &GenCfg { stalls: false, faults: idx % 8 == 7, max_ops: 12, max_senders: 3, allow_drop: idx % 16 >= 8, kill_lag: idx % 8 == 3 }),
         })
     }
     fn execute(&self, scn: &E1Scn, policy: Policy, sched_seed: u64) -> RunOut {
